@@ -218,6 +218,12 @@ func (otx olvmTx) Validate(ctx *action.Context, signedTx action.SignedTx) (bool,
 		return false, err
 	}
 
+	// only legacy transactions are supported: the signature covers neither a transaction
+	// type nor an access list, so anybody could attach them to a signed transaction
+	if tx.TxType != int64(ethtypes.LegacyTxType) || (tx.AccessList != nil && len(*tx.AccessList) > 0) {
+		return false, ethtypes.ErrTxTypeNotSupported
+	}
+
 	//validate basic signature
 	err = tx.validateSigner(ctx, signedTx)
 	if err != nil {
